@@ -88,12 +88,20 @@ Pick == /\ tid = 0 /\ \E t \in 1..Len(T) : tid' = t /\ st' = InitState(T[t])
         /\ l' = 1 /\ bad' = ""
 Next1 == /\ tid > 0 /\ l >= 1 /\ l <= Len(T[tid].steps)
          /\ LET e == T[tid].steps[l] IN
-              IF ~EventOK(st, e) THEN bad' = "" /\ st' = Adopt(st, e)       \* outside the supported inputs: not judged
+              IF ~EventOK(st, e) THEN
+                   \* outside the supported inputs (e.g. a key missing from some item): the result is not judged and the
+                   \* history ends here - but a non-modifying method leaves every item as it was even then
+                   LET v == IF e.a.op \in NonModifying /\ Len(e.obs.items) >= Len(st.items)
+                                /\ SubSeq(e.obs.items, 1, Len(st.items)) # st.items
+                            THEN "SM:non-modifying-method-changed-an-item:" \o e.a.op ELSE "" IN
+                   /\ bad' = v /\ st' = st
+                   /\ (v # "" => PrintT(ToJson([BAD |-> v, tid |-> tid, step |-> l])))
               ELSE LET v == Clause(st, e) IN
                    /\ bad' = v
                    /\ (v # "" => PrintT(ToJson([BAD |-> v, tid |-> tid, step |-> l])))
                    /\ st' = Adopt(st, e)
-         /\ l' = l + 1 /\ UNCHANGED tid
+         /\ l' = IF EventOK(st, T[tid].steps[l]) THEN l + 1 ELSE Len(T[tid].steps) + 1
+         /\ UNCHANGED tid
 Next == Pick \/ Next1
 Spec == Init /\ [][Next]_<<tid, l, st, bad>>
 Accepted == bad = ""
